@@ -11,9 +11,11 @@ ASSUMPTIONS = [
 
 
 def run(tier, only=None):
+    from ..common import match_only
+
     cfgs = pselect._cfgs(tier)
     if only:
-        cfgs = [c for c in cfgs if only in pselect._name(c)]
+        cfgs = [c for c in cfgs if match_only(only, pselect._name(c), c[3])]
     if tier == "quick" and len(cfgs) > 1500:
         step = len(cfgs) / 1500.0
         cfgs = [cfgs[int(i * step)] for i in range(1500)]
